@@ -286,3 +286,64 @@ pub fn ctor_tree(rng: &mut Rng, depth: u32, nmax: usize, pks: &[PK]) -> Spec {
     }
     leaf(rng)
 }
+
+/// fault `ctor.precondition`: a construction through the public safe API that violates one documented precondition.
+pub fn ill_ctor(rng: &mut Rng, pks: &[PK]) -> Spec {
+    use crate::world::IllCtor;
+    let small_leaf = |rng: &mut Rng| -> Spec {
+        match rng.below(4) {
+            0 | 1 => Spec::Butterfly(*rng.pick(&BUTTERFLIES[1..])),
+            2 => Spec::Dft(2 + rng.below(12) as usize),
+            _ => Spec::Planned(*rng.pick(pks), 2 + rng.below(70) as usize),
+        }
+    };
+    let bx = Box::new;
+    Spec::Ill(match rng.below(9) {
+        0 | 1 => IllCtor::Dirs(rng.below(4) as u8, bx(small_leaf(rng)), bx(small_leaf(rng))),
+        2 | 3 => {
+            // a common factor: both lengths are multiples of g
+            let g = *rng.pick(&[2usize, 3, 4, 5]);
+            let pick_mult = |rng: &mut Rng| -> Spec {
+                let cands: Vec<usize> = BUTTERFLIES.iter().copied().filter(|b| b % g == 0).collect();
+                if rng.chance(0.6) && !cands.is_empty() {
+                    Spec::Butterfly(*rng.pick(&cands))
+                } else {
+                    Spec::Planned(*rng.pick(pks), g * (1 + rng.below(12) as usize))
+                }
+            };
+            IllCtor::NotCoprime(rng.chance(0.5), bx(pick_mult(rng)), bx(pick_mult(rng)))
+        }
+        4 => {
+            // inner transforms with scratch needs: Bluestein/Rader-planned primes, MixedRadix
+            let needy = |rng: &mut Rng| -> Spec {
+                match rng.below(3) {
+                    0 => Spec::Planned(PK::Scalar, *rng.pick(&[37usize, 59, 83, 74, 111])),
+                    1 => Spec::MixedRadix(Box::new(Spec::Butterfly(5)), Box::new(Spec::Butterfly(7))),
+                    _ => Spec::Bluestein(10, Box::new(Spec::Radix4(32))),
+                }
+            };
+            if rng.chance(0.5) {
+                IllCtor::SmallScratch(rng.chance(0.5), bx(needy(rng)), bx(small_leaf(rng)))
+            } else {
+                IllCtor::SmallScratch(rng.chance(0.5), bx(small_leaf(rng)), bx(needy(rng)))
+            }
+        }
+        5 => {
+            // inner.len() + 1 composite
+            let l = *rng.pick(&[3usize, 5, 7, 8, 9, 11, 13, 15, 17, 19, 23, 24, 27, 31, 32, 64, 48, 90]);
+            IllCtor::RadersNotPrime(bx(leaf_of_len(rng, l, pks)))
+        }
+        6 => {
+            let n = 2 + rng.below(120) as usize;
+            let m = match rng.below(4) {
+                0 => 2 * n - 2,
+                1 => n,
+                2 => 1 + rng.below(n as u64) as usize,
+                _ => n + rng.below(n as u64 - 1) as usize,
+            };
+            IllCtor::BluesteinShort(n, bx(leaf_of_len(rng, m.max(1), pks)))
+        }
+        7 => IllCtor::Radix4Len(*rng.pick(&[0usize, 3, 6, 12, 24, 48, 96, 100, 255, 1000])),
+        _ => IllCtor::Radix3Len(*rng.pick(&[0usize, 2, 6, 12, 18, 28, 80, 100, 242])),
+    })
+}
